@@ -7,7 +7,7 @@
    semicircle encoding and monotonicity are checked as flags over generated
    inputs. *)
 From Coq Require Import Reals ZArith Lra.
-From GJ Require Import Sphere SphereRect SphereDest.
+From GJ Require Import Sphere SphereRect SphereDest SphereTriangle.
 Open Scope R_scope.
 
 Theorem C15_distance_symmetric : forall a b c d, distance_to a b c d = distance_to c d a b.
@@ -34,6 +34,12 @@ Proof. exact normalize_idempotent. Qed.
    the metres DistanceFromHaversine returns never exceed half the circumference *)
 Theorem C15_metres_never_exceed_half_circumference : forall h, dist_from_hav h <= piR.
 Proof. exact dist_from_hav_le_piR. Qed.
+
+(* the great-circle distance is a metric on the sphere: triangle inequality (with symmetry, zero on the
+   diagonal and the range, proved above) *)
+Theorem C15_distance_triangle : forall latA lonA latB lonB latC lonC, lat_ok latA -> lat_ok latB -> lat_ok latC ->
+  distance_to latA lonA latC lonC <= distance_to latA lonA latB lonB + distance_to latB lonB latC lonC.
+Proof. exact distance_triangle. Qed.
 
 (* travelling d along bearing th from A: the haversine of (A, destination) is the haversine of d, the distance back
    is d, and the arguments of the initial-bearing atan2 are (sin th, cos th) * sin (d/R), i.e. the bearing back is th.
